@@ -15,7 +15,7 @@
 From Coq Require Import List ZArith Bool.
 From GrolGen Require Import Gen_Consts.
 From GrolModel Require Import Arith PanicSites.
-From GrolProofs Require Import Arith_proofs PanicSites_proofs.
+From GrolProofs Require Import Arith_proofs Arith_bits_proofs PanicSites_proofs.
 Import ListNotations.
 Local Open Scope Z_scope.
 
@@ -78,6 +78,23 @@ Theorem C07_repeat_never_panics : forall free len r,
   is_go_panic (array_repeat free len r) = false /\ is_go_panic (string_repeat free len r) = false.
 Proof. exact repeat_no_panic. Qed.
 
+(* the integer operators are closed over int64: on int64 operands EVERY operator (the bitwise ones included, which Go does
+   not wrap) yields an int64, and a range has int64 bounds in order - the model's values are values Go's int64 can hold *)
+Theorem C07_int_ops_closed : forall free op a b,
+  in_int64 a -> in_int64 b ->
+  match int_infix free op a b with
+  | Val (RInt z) => in_int64 z
+  | Val (RRange lo hi) => in_int64 lo /\ in_int64 hi /\ lo <= hi
+  | _ => True
+  end.
+Proof. exact int_infix_closed. Qed.
+
+(* two's complement range as a statement about bits (what makes & | ^ closed): z is an int64 iff every bit from 63 on
+   repeats bit 63 *)
+Theorem C07_int64_is_sign_extension : forall z,
+  in_int64 z <-> forall i, 63 <= i -> Z.testbit z i = Z.testbit z 63.
+Proof. exact in_int64_bits. Qed.
+
 (* every panic-capable site the translator finds in /repo is covered by the audited classification *)
 Theorem C07_panic_sites_accounted : panic_sites_accounted = true.
 Proof. exact panic_sites_accounted_true. Qed.
@@ -121,6 +138,16 @@ Example C07_ex_repaired :
      = Val [mk_earg object_FLOAT object_FLOAT []].
 Proof. vm_compute. repeat split. Qed.
 
+Example C07_ex_closed :
+  in_int64 (-9223372036854775808) /\ in_int64 9223372036854775807
+  /\ int_infix 0 IXor (-9223372036854775808) 9223372036854775807 = Val (RInt (-1))
+  /\ int_infix 0 IAnd (-1) 9223372036854775807 = Val (RInt 9223372036854775807)
+  /\ int_infix 0 IOr (-9223372036854775808) 1 = Val (RInt (-9223372036854775807))
+  /\ ~ in_int64 9223372036854775808.
+Proof. unfold in_int64, min_int, max_int, two63. vm_compute. repeat split; try discriminate; intros [_ H]; apply H; reflexivity. Qed.
+
+Print Assumptions C07_int_ops_closed.
+Print Assumptions C07_int64_is_sign_extension.
 Print Assumptions C07_int_ops_never_panic.
 Print Assumptions C07_slice_bounds_safe.
 Print Assumptions C07_index_safe.
